@@ -161,7 +161,11 @@ func run() int {
 }
 
 func goBuild(out string, args ...string) (string, error) {
-	a := append([]string{"build", "-o", out}, args...)
+	a := []string{"build", "-o", out}
+	if mf := os.Getenv("VERIF_GOMOD"); mf != "" { // development aid: build against a scratch worktree of /repo
+		a = append(a, "-modfile="+mf)
+	}
+	a = append(a, args...)
 	cmd := exec.Command("go", a...)
 	cmd.Dir = filepath.Join(verifRoot, "harness")
 	cmd.Env = goEnv
